@@ -182,6 +182,12 @@ func RunWalks(t *testing.T, ad Adapter, root sdk.Context, dump func(sdk.Context)
 	}
 }
 
+// Bounder is implemented by adapters whose projection has fixed-size tables: the recorder does not
+// attempt operations that would create an object beyond them.
+type Bounder interface {
+	WithinBounds(ctx sdk.Context, op Op) bool
+}
+
 // RunRecord drives the real application with seeded random operations drawn from the alphabet of the
 // graph in VERIF_EDGES (generated with LARGER constants than the model-checking runs and zero
 // budgets, so it holds just the initial state and every operation) and records the real behaviour:
@@ -208,6 +214,7 @@ func RunRecord(t *testing.T, ad Adapter, root sdk.Context) {
 	}
 	init := ad.Project(root)
 	accepted := 0
+	bounder, _ := ad.(Bounder)
 	for wk := 0; wk < nWalks; wk++ {
 		ctx, _ := root.CacheContext()
 		var path []Step
@@ -216,6 +223,10 @@ func RunRecord(t *testing.T, ad Adapter, root sdk.Context) {
 			var op Op
 			for try := 0; try < 4; try++ {
 				op = g.Alphabet[int(next()%uint64(len(g.Alphabet)))]
+				if bounder != nil && !bounder.WithinBounds(ctx, op) {
+					try--
+					continue
+				}
 				probe, _ := ctx.CacheContext()
 				if _, r := ad.Apply(probe, op); r == "ok" {
 					break
